@@ -330,6 +330,33 @@ def build(tier, seed, verbose=True):
         for cname, ds in rr["diags"].items():
             results["main"]["diags"][cname] = ds
         results["retry%d" % rnd] = {"label": "retry%d" % rnd, "rc": rr["rc"], "wall_s": rr["wall_s"], "diags": {}, "built": rr["built"], "stderr_tail": rr["stderr_tail"]}
+    # quarantined declarations: do they compile under a permissive regime (std, no deny(missing_docs))?  If so the
+    # failure is one of the no_std / documentation regime (C18), otherwise the declaration is rejected as such (C09/C10)
+    withq = [c for c in pos if any(d.get("quarantined") for d in model[c.name]["decls"])]
+    if withq:
+        import copy
+        perm = []
+        for c in withq:
+            c2 = copy.deepcopy(c)
+            c2.name = "std_" + c.name[4:]
+            c2.header = ["#![allow(warnings)]", "//! permissive regime: std available, no lint denied", ""]
+            for m_ in c2.mods.values():
+                for d in m_:
+                    d.pop("skip", None)
+                    d["consts"] = []
+            perm.append((c, c2))
+        ws_p = os.path.join(out, "ws_permissive")
+        mp = write_workspace(ws_p, [c2 for (_, c2) in perm])
+        tp = os.path.join(out, "target_permissive")
+        rp = run_cargo(ws_p, os.path.join(out, "permissive"), tp, wrapper=False, label="permissive")
+        shutil.rmtree(tp, ignore_errors=True)
+        results["permissive"] = rp
+        for (c, c2) in perm:
+            ds = rp["diags"].get(c2.name, [])
+            for d, d2 in zip(model[c.name]["decls"], mp[c2.name]["decls"]):
+                if d.get("quarantined") and d2.get("line0", -1) > 0:
+                    hit = any(a.get("line") and d2["line0"] <= a["line"] <= d2["line1"] for x in ds for a in x["at"])
+                    d["std_ok"] = not hit
     # must-fail declarations that were *accepted*: compile them with the driver too, so that the properties about
     # accepted declarations (C11 invariant, C16 totality) also get a verdict on them
     accepted = []
